@@ -5,6 +5,7 @@ from .. import psi, mir, arith
 from ..psi import fmt, T
 from . import common
 
+C_NONE = ('c', None, '?')
 STATUS = ('Unknown', 'Synchronized', 'FreeRunning')
 
 
@@ -443,7 +444,7 @@ class UpdaterModel:
         chk.saw(ctor)
         eng = common.mk_engine(fb)
         ps = [p for p in eng.run(ctor) if p.kind == 'return']
-        if len(ps) != 1 or ps[0].value[0] != 'agg':
+        if not ps or any(p.value[0] != 'agg' for p in ps) or len({p.value[1] for p in ps}) != 1:
             return ctor, None, None
         v = ps[0].value
         adt = eng.find_adt(v[1]) or {}
@@ -451,6 +452,15 @@ class UpdaterModel:
         fields = {}
         for nm_, fv_ in zip(names, v[3]):
             self.expand_store(fields, nm_, fv_)        # nested private structs: dotted names, as for the stores
+        # a constructor with several outcomes (it looks at something outside: what a predecessor left in the segment, a
+        # file, the environment): a field that differs between them has no constant start value
+        for p2 in ps[1:]:
+            f2 = {}
+            for nm_, fv_ in zip(names, p2.value[3]):
+                self.expand_store(f2, nm_, fv_)
+            for k_ in set(fields) | set(f2):
+                if fields.get(k_) != f2.get(k_):
+                    fields[k_] = T('varies', fields.get(k_) or C_NONE, f2.get(k_) or C_NONE)
         # FSM initial state: Box::<T>::default() with T from the call's type arguments
         init = None
         for ef in ps[0].effects:
